@@ -318,7 +318,7 @@ func isNumber(s string) bool {
 func isPrintableASCII(s string) bool {
 	for i := 0; i < len(s); i++ {
 		b := s[i]
-		if b < 0x20 || b >= 0x80 {
+		if b < 0x20 || b >= 0x7f { // (strconv.Quote escapes DEL as \x7f, which is not JSON)
 			return false
 		}
 	}
